@@ -655,7 +655,7 @@ Proof.
     destruct (c_stat c) eqn:Est; try discriminate Hf.
     pose proof (clo_find_of_in _ _ Hnd Hin) as Ek. inv_some H.
     pose proof (clo_R_gaveup _ _ _ _ _ _ _ _ _ _ _ g HC Ek Est) as HC'.
-    destruct (c_conn c =? conn_no s); eapply (rs_R_of _ _ (conn_no s) _ (ackq s) _ (lp s) (gproc s) (pp s)); sfc; rs_proj; try eassumption; try reflexivity.
+    destruct (c_conn c =? conn_no s); eapply (rs_R_of _ _ (conn_no s) _ (ackq s) _ (lp s) (gproc s) (pp s)); sfc; rs_proj; try reflexivity; try eassumption.
   - (* EAckCall *)
     destruct (clo_find (clos s) k) as [c|] eqn:Ek; [|discriminate H].
     pose proof (HB k) as HBk. rewrite Ek in HBk. destruct HBk as [HB1 HB2].
@@ -667,15 +667,15 @@ Proof.
            eapply (rs_R_of _ _ (conn_no s) _ (if live (conn_no s) (lp s) c then ackq s ++ [ack_packet (c_kind c)] else ackq s)
                      (dying s) (lp s) (gproc s) (pp s)); sfc; rs_proj; try assumption; try reflexivity;
            apply clo_R_invoke_run; assumption.
-      eapply (rs_R_of _ _ (conn_no s) _ (ackq s) _ (lp s) (gproc s) (pp s)); sfc; rs_proj; try eassumption; try reflexivity. apply clo_R_invoke_del; assumption.
+      eapply (rs_R_of _ _ (conn_no s) _ (ackq s) _ (lp s) (gproc s) (pp s)); sfc; rs_proj; try reflexivity; try eassumption. eapply clo_R_invoke_del; eassumption.
     + inv_some H. eexists; split; [reflexivity|]. split; [reflexivity|split; assumption].
   - (* EAckRet *)
     exists (RsSt (conn_no s) rlast rnl rclo rinv rdone). split; [reflexivity|].
     destruct (clo_find (clos s) k) as [c|] eqn:Ek; [|discriminate H].
     destruct (c_stat c) eqn:Est; try discriminate H.
     + destruct (g =? g0); [|discriminate H]. inv_some H.
-      eapply (rs_R_of _ _ (conn_no s) _ (ackq s) _ (lp s) (gproc s) (pp s)); sfc; rs_proj; try eassumption; try reflexivity.
-      apply (clo_R_same _ _ _ _ _ _ _ _ _ _ CDone HC Ek); rewrite Est; reflexivity.
+      eapply (rs_R_of _ _ (conn_no s) _ (ackq s) _ (lp s) (gproc s) (pp s)); sfc; rs_proj; try reflexivity; try eassumption.
+      apply (clo_R_same _ _ _ _ _ _ _ _ _ _ CDone HC Ek); rewrite ?Est; reflexivity.
     + inv_some H. split; [reflexivity|split; assumption].
   - (* EDelete Incoming: a running pubcomp closure *)
     destruct d; [|discriminate H].
@@ -689,8 +689,8 @@ Proof.
       eapply (rs_R_of _ _ (conn_no s) _ (if live (conn_no s) (lp s) c then ackq s ++ [ack_packet (c_kind c)] else ackq s)
                 (dying s) (lp s) (gproc s) (pp s)); sfc; rs_proj; try assumption; try reflexivity.
       eapply clo_R_deleted; eassumption.
-    + eapply (rs_R_of _ _ (conn_no s) _ (ackq s) _ (lp s) (gproc s) (pp s)); sfc; rs_proj; try eassumption; try reflexivity.
-      apply (clo_R_same _ _ _ _ _ _ _ _ _ _ (CDieLog g) HC Ek); rewrite Est; reflexivity.
+    + eapply (rs_R_of _ _ (conn_no s) _ (ackq s) _ (lp s) (gproc s) (pp s)); sfc; rs_proj; try reflexivity; try eassumption.
+      apply (clo_R_same _ _ _ _ _ _ _ _ _ _ (CDieLog g) HC Ek); rewrite ?Est; reflexivity.
   - (* EDie KSession by a closure whose delete failed *)
     destruct k; try discriminate H.
     exists (RsSt (conn_no s) rlast rnl rclo rinv rdone). split; [reflexivity|].
@@ -698,6 +698,6 @@ Proof.
     destruct (clo_stat_find_some _ _ _ Ed) as (Hin & Hf).
     destruct (c_stat c) eqn:Est; try discriminate Hf.
     pose proof (clo_find_of_in _ _ Hnd Hin) as Ek. inv_some H.
-    eapply (rs_R_of _ _ (conn_no s) _ (ackq s) _ (lp s) (gproc s) (pp s)); sfc; rs_proj; try eassumption; try reflexivity.
-    apply (clo_R_same _ _ _ _ _ _ _ _ _ _ (CDieClose g) HC Ek); rewrite Est; reflexivity.
+    eapply (rs_R_of _ _ (conn_no s) _ (ackq s) _ (lp s) (gproc s) (pp s)); sfc; rs_proj; try reflexivity; try eassumption.
+    apply (clo_R_same _ _ _ _ _ _ _ _ _ _ (CDieClose g) HC Ek); rewrite ?Est; reflexivity.
 Qed.
